@@ -220,6 +220,27 @@ partial def hasParL : TL → Bool
   | .cons t ts => hasPar t || hasParL ts
 end
 
+def kidsOf : TL → List Node
+  | .nil => []
+  | .cons t ts => t.data :: kidsOf ts
+
+/-- a node that failed by its own timeout while the finish notification of one of its children is still queued: the
+timeout expired in the same pass as the child finished (the notification will find its parent ended) -/
+def tmoRace (t : T) : Bool :=
+  (nodesOf t).any fun (d, cs) =>
+    d.tmo.isSome && d.st == .finished && d.res == .fail &&
+    (kidsOf cs).any (fun c => c.st == .finished && c.tasks.any (fun k => match k.2 with | .fin _ _ => true | _ => false))
+
+/-- control calls that arrive while a ParallelAction of the tree is under way -/
+def parCtlTags (t : T) (op : Op) : List String :=
+  if (nodesOf t).any (fun x => x.1.isPar && x.1.underway) then
+    match op with
+    | .calls cs => cs.filterMap fun c => match c with
+        | .pause => some "par+pause" | .resume => some "par+resume" | .stop => some "par+stop" | .reset => some "par+reset" | _ => none
+    | .defer _ => ["par+defer"]
+    | _ => []
+  else []
+
 def xShowSt (s : Exec.XS) : String :=
   if s.idc = 0 then "-" else
   String.join ((List.range s.idc).map fun i =>
@@ -426,6 +447,9 @@ def stepLine (ds : DS) (line : String) : DS × List String :=
           ++ (if evs.any (fun e => match e with | .rootFin _ _ _ => true | _ => false) then ["root-fin"] else [])
           ++ (if evs.any (fun e => match e with | .rootBlk _ _ => true | _ => false) then ["root-blk"] else [])
           ++ (if (nodesOf t').any (fun x => x.1.tmoAt.isSome) then ["tmo-armed"] else [])
+          ++ parCtlTags t op
+          ++ (if tmoRace t' then ["tmo-race"] else [])
+          ++ (if (nodesOf t').any (fun x => x.1.isPar && x.1.st == .pause) then ["par-paused"] else [])
           ++ (if (nodesOf t').any (fun x => x.1.res == .fail && x.1.tmo.isSome && x.1.st == .finished) then ["tmo-node-failed"] else [])
         ({ ds with tree := some (t', n), g := g', nops := ds.nops + 1 },
          ["B " ++ " ".intercalate tags] ++ spec.filter (·.startsWith "B ") ++ (evs.filter (fun e => !isGhost e)).map (fun e => "P e " ++ showEv e)
